@@ -5,6 +5,7 @@ import (
 
 	"github.com/jsightapi/jsight-schema-core/errs"
 	"github.com/jsightapi/jsight-schema-core/notations/jschema/ischema"
+	"github.com/jsightapi/jsight-schema-core/notations/jschema/ischema/constraint"
 )
 
 // CheckRecursion checks that given schema doesn't have invalid recursions.
@@ -122,7 +123,15 @@ func (c *recursionChecker) check(node ischema.Node, types map[string]ischema.Typ
 
 	// We should check all fields in the object 'cause some of them can be required.
 	case *ischema.ObjectNode:
-		for _, n := range node.Children() {
+		// Only required members can force a recursion. Whether a member is
+		// required does not only depend on its own "optional" rule: a schema
+		// may be built with keys optional by default. The compiled list of
+		// required keys knows both.
+		required := requiredKeys(node)
+		for i, n := range node.Children() {
+			if _, ok := required[node.Key(i).Key]; !ok && !node.Key(i).IsShortcut {
+				continue
+			}
 			if err := c.check(n, types); err != nil {
 				return err
 			}
@@ -133,6 +142,16 @@ func (c *recursionChecker) check(node ischema.Node, types map[string]ischema.Typ
 	}
 
 	return nil
+}
+
+func requiredKeys(node *ischema.ObjectNode) map[string]struct{} {
+	res := map[string]struct{}{}
+	if rk, ok := node.Constraint(constraint.RequiredKeysConstraintType).(*constraint.RequiredKeys); ok {
+		for _, k := range rk.Keys() {
+			res[k] = struct{}{}
+		}
+	}
+	return res
 }
 
 func (c *recursionChecker) checkMixedValueNode(
